@@ -12,14 +12,22 @@ import (
 
 // The configuration both the crashing child and the recovering parent boot (listen addresses are placeholders
 // of the in-memory listener and may differ between the two; everything else is identical).
-func configText(portBase int) string {
+func configText(portBase int) string { return configTextFor("", portBase) }
+
+// configTextFor: the scenario "limits" (and its generated relatives) runs with a small bounded queue that refuses
+// when full, so that refusals and half-stored fan-outs are part of the history.
+func configTextFor(scn string, portBase int) string {
+	extra := ""
+	if strings.HasPrefix(scn, "limits") {
+		extra = "queue_limits { max_depth 3  drop_policy reject }\n"
+	}
 	return fmt.Sprintf(`
 ingress   { listen "127.0.0.1:%d" }
 pull_api  { listen "127.0.0.1:%d"  auth token "raw:g1" }
 admin_api { listen "127.0.0.1:%d" }
-/p { pull { path /e } }
+%s/p { pull { path /e } }
 /f { deliver "https://t1.example/h" {}  deliver "https://t2.example/h" {} }
-`, portBase, portBase+1, portBase+2)
+`, portBase, portBase+1, portBase+2, extra)
 }
 
 // step of the scripted history.
@@ -58,6 +66,22 @@ func scriptApp() []step {
 		{Kind: "ingress", Route: "/f", Payload: "b4", Targets: fanTargets},
 		{Kind: "dequeue", Batch: 3},
 		{Kind: "ackbatch", Leases: []int{3, 4}},
+	}
+}
+
+// scenario "limits": a queue of depth 3 that refuses when full: refused ingress, a fan-out that finds one free slot
+// for its two copies (503, the first copy may stay), slots freed by an ack, a refused publish batch.
+func scriptLimits() []step {
+	return []step{
+		{Kind: "ingress", Route: "/p", Payload: "q1", Targets: []string{"pull"}},
+		{Kind: "ingress", Route: "/p", Payload: "q2", Targets: []string{"pull"}},
+		{Kind: "ingress", Route: "/f", Payload: "q3", Targets: fanTargets}, // one free slot for two copies
+		{Kind: "ingress", Route: "/p", Payload: "q4", Targets: []string{"pull"}}, // full
+		{Kind: "dequeue", Batch: 1},
+		{Kind: "ack", Lease: 0},
+		{Kind: "publish", Items: []pubItem{{"z1", "/p", "pz1"}, {"z2", "/p", "pz2"}}}, // one free slot for two items
+		{Kind: "ingress", Route: "/p", Payload: "q5", Targets: []string{"pull"}},
+		{Kind: "ingress", Route: "/f", Payload: "q6", Targets: fanTargets}, // full
 	}
 }
 
@@ -224,6 +248,15 @@ var concScripts = map[string]func() [][]step{
 		return [][]step{
 			{{Kind: "ingress", Route: "/p", Payload: "d1", Targets: []string{"pull"}}, {Kind: "ingress", Route: "/p", Payload: "d2", Targets: []string{"pull"}}},
 			{{Kind: "dequeue", Batch: 2}, {Kind: "ack", Lease: -1}, {Kind: "dequeue", Batch: 2}, {Kind: "nack", Lease: -1, Delay: "0s"}},
+		}
+	},
+	// the retention pruner (it runs inside whatever store call comes first after prune_interval, 5 minutes by default)
+	// overlapping a client's settlement: one client sends, dequeues and acks; the other lets the clock pass the prune
+	// interval and then sends (its request runs the pruner)
+	"conc-prune": func() [][]step {
+		return [][]step{
+			{{Kind: "ingress", Route: "/p", Payload: "r1", Targets: []string{"pull"}}, {Kind: "dequeue", Batch: 1}, {Kind: "ack", Lease: -1}},
+			{{Kind: "clock", Delay: "6m"}, {Kind: "ingress", Route: "/p", Payload: "r2", Targets: []string{"pull"}}},
 		}
 	},
 	// three clients: fan-out producer, publisher, consumer with a dead-letter
